@@ -154,16 +154,25 @@ func checkCase(c Case) (Outcome, error) {
 		// "The migration plan is generated for deferred execution" => rejected; in-place plans (and dump mode, whose
 		// PlanMode value includes the in-place bit) may alter the attributes of the very schema they run in.
 		mustReject = !migrate.PlanMode(c.Mode).Is(migrate.PlanModeInPlace)
-	case "modify-other-schema":
+	case "modify-other-schema", "modify-other-schema-differing-by-case":
 		// the attributes of ANOTHER schema are altered next to table changes of this one: two schemas in one plan
 		other := schema.New("other_" + Marker)
+		if c.Span == "modify-other-schema-differing-by-case" {
+			other = schema.New(strings.ToUpper(Marker))
+			if c.Qualifier == "custom" {
+				other = schema.New(strings.ToUpper(Custom))
+			}
+		}
 		mustReject = tableChanges(changes) > 0
 		changes = append(changes, &schema.ModifySchema{S: other, Changes: []schema.Change{&schema.AddAttr{A: &schema.Comment{Text: "x"}}}})
 		if !migrate.PlanMode(c.Mode).Is(migrate.PlanModeInPlace) {
 			mustReject = true // deferred plans may not alter any schema
 		}
-	case "two-schemas":
+	case "two-schemas", "two-schemas-differing-by-case":
 		other := schema.New("other_" + Marker)
+		if c.Span == "two-schemas-differing-by-case" {
+			other = schema.New(strings.ToUpper(Marker)) // a distinct schema in PostgreSQL and in MySQL with lower_case_table_names=0
+		}
 		other.AddTables(schema.NewTable("elsewhere").AddColumns(schema.NewIntColumn("id", "bigint")))
 		mustReject = tableChanges(changes) > 0 // a change set living entirely in one (other) schema is still single-schema
 		changes = append(changes, &schema.AddTable{T: other.Tables[0]})
